@@ -131,7 +131,7 @@ def Atom.guard (s : PState) : Atom → Bool
   | .vrot => true
   | .vhdr => true
   | .pushImm => s.curOpen && s.pending.isEmpty
-  | .newMem => !s.curOpen
+  | .newMem => !s.curOpen && s.pending.isEmpty
   | .mhdr => s.curOpen && !s.curHdr
   | .wput _ => s.curOpen && s.curHdr && s.inflight.isSome
   | .fin =>
@@ -139,12 +139,15 @@ def Atom.guard (s : PState) : Atom → Bool
     | some t => s.curOpen && s.curHdr && s.pending == t.ents && !t.ents.isEmpty && t.ts != 0
     | none => false
   | .ack => s.acked < s.done
-  | .kmk id => s.kout.any (fun o => o.id == id && o.stage == 0) && !s.flusherHolds id
-  | .kwrite id => s.kout.any (fun o => o.id == id && o.stage == 1) && !s.flusherHolds id
+  | .kmk id => s.kout.any (fun o => o.id == id && o.stage == 0) && !s.flusherHolds id && (aget id s.tset).isNone
+  | .kwrite id => s.kout.any (fun o => o.id == id && o.stage == 1) && !s.flusherHolds id && (aget id s.tset).isNone
   | .kmset =>
     !s.kins.isEmpty && s.kout.all (fun o => o.stage == 2 && (aget o.id s.tset).isNone) &&
     nodupNat (s.kout.map (·.id)) && nodupNat s.kins &&
-    s.kins.all (fun id => (aget id s.tset).isSome) && (applyMSet s.tset (kmsetChanges s)).isSome
+    s.kins.all (fun id => (aget id s.tset).isSome) && (applyMSet s.tset (kmsetChanges s)).isSome &&
+    -- (modelling restriction) a table is not compacted away while the WAL it was flushed from
+    -- is still waiting to be deleted
+    !(!s.imm.isEmpty && 5 ≤ s.fpc && s.kins.contains s.fsst)
   | .kdel id =>
     s.kdelq.contains id && (aget id s.tset).isNone && !s.flusherHolds id && !s.kout.any (fun o => o.id == id)
 
@@ -262,7 +265,10 @@ def flushAtom (s : PState) : Option (List FsOp × PState) :=
     else
     match s.fpc with
     | 0 => some (mkFile (.sst s.nextSst), { s with fpc := 1, fsst := s.nextSst, nextSst := s.nextSst + 1 })
-    | 1 => some ([.append (.sst s.fsst) (.table es)], { s with fpc := 2 })
+    | 1 =>
+      if (aget s.fsst s.tset).isNone ∧ !s.kout.any (fun o => o.id == s.fsst) then
+        some ([.append (.sst s.fsst) (.table es)], { s with fpc := 2 })
+      else none
     | 2 => some ([.sync (.sst s.fsst)], { s with fpc := if s.cfg.dirSyncFix then 3 else 4 })
     | 3 => some ([.syncDir], { s with fpc := 4 })
     | 4 =>
